@@ -109,6 +109,17 @@ class Session:
     def enc_model(self, mh):
         return encode_model(mh.m, mh.id, mh.kind, self.gamma_names)
 
+    def gamma_callable(self, mh, name):
+        """The callback with that name, for assigning to a live model (the probe weighs by the model's current beta)."""
+        if name == "default":
+            return sys.modules[self.classes[mh.kind].__module__]._gamma
+        if name == "probe":
+            g = make_gamma_probe(mh.m.beta)
+            self.gamma_names[id(g)] = "probe"
+            self._keep.append(g)
+            return g
+        return {"one": gamma_one, "zero": gamma_zero, "big": gamma_big}[name]
+
     @staticmethod
     def outcome_of(fn):
         try:
